@@ -478,6 +478,21 @@ Example ex_async_idle_exit : let x := xget (xrun xinit [XSubmit 1 0 0 true; XIdl
   /\ e_st (ent (core x) 1) = Retired.
 Proof. split; [exists [XSubmit 1 0 0 true; XIdleExit; XSubmit 2 0 0 true; XCore Close]; reflexivity|]. vm_compute. auto 10. Qed.
 
+(* MIXED queue at the exit of the send loop (seed C18-10): sync 1, async 2, sync 3, async 4 sit in the channel in that order.
+   Both exits fail BOTH async entries -- the drain is a filter over the whole channel, C18_async_never_orphaned quantifies
+   over every member of an arbitrary queue, not over a prefix -- and leave the sync entries alone (their callers watch
+   the closed signal / their timer themselves) *)
+Definition mixed_queue : list xlabel := [XSubmit 1 0 0 false; XSubmit 2 0 0 true; XSubmit 3 0 0 false; XSubmit 4 0 0 true].
+Example ex_mixed_queue_idle_exit : let x0 := xget (xrun xinit mixed_queue) in let x := xget (xrun xinit (mixed_queue ++ [XIdleExit])) in
+  chq x0 = [4; 3; 2; 1] (* newest first: the sync entry 1 is the one the loop would receive first *) /\ xreach x /\ chq x = [] /\ e_comp (ent (core x) 2) = [Err EIdle] /\ e_comp (ent (core x) 4) = [Err EIdle]
+  /\ e_comp (ent (core x) 1) = [] /\ e_st (ent (core x) 1) = Queued /\ e_comp (ent (core x) 3) = [] /\ e_st (ent (core x) 3) = Queued.
+Proof. split; [vm_compute; reflexivity|]. split; [exists (mixed_queue ++ [XIdleExit]); reflexivity|]. vm_compute. auto 10. Qed.
+Example ex_mixed_queue_closed_exit : let x := xget (xrun xinit (mixed_queue ++ [XCore Close; XSendExit])) in
+  xreach x /\ chq x = [] /\ e_comp (ent (core x) 2) = [Err EClosed] /\ e_comp (ent (core x) 4) = [Err EClosed]
+  /\ e_comp (ent (core x) 1) = [] /\ e_comp (ent (core x) 3) = []
+  /\ (exists x', xstep x (XCore (Abort 1 EClosed)) = Some x') /\ (exists x', xstep x (XCore (Abort 3 EClosed)) = Some x').
+Proof. split; [exists (mixed_queue ++ [XCore Close; XSendExit]); reflexivity|]. vm_compute. repeat split; eauto. Qed.
+
 (* pool: call 1 on connection 0 of generation 0, CloseAddr, call 2 goes to generation 1; call 1 returns the closed error *)
 Definition pget (o : option pstate) : pstate := match o with Some p => p | None => pinit end.
 Example ex_pool : let p := pget (prun pinit [PRoute 1 0 0; PCore 0 0 (Build 1 1); PCore 0 0 (Store 1); PCloseAddr; PRoute 2 1 0;
